@@ -9,5 +9,7 @@ AlphaNumKw == {43, 45, 46, 49, 120, 32, 47, 91, 37, 10}
 AlphaComment == {37, 13, 10, 120, 32, 40}
 AlphaEsc == {40, 41, 92, 13, 10, 120}
 AlphaOct == {40, 41, 92, 49, 55, 56}
+\* an octal escape next to raw end-of-line bytes and continuations
+AlphaOctEol == {40, 41, 92, 49, 13, 10}
 NoDev == {}
 ====
